@@ -199,4 +199,7 @@ def run(ctx):
              "_checkOwner no longer reverts when owner() != _msgSender()")
     else:
         R.violation("SOL", "contract/src", "SOL|parse", "Solidity sources could not be parsed into BRC20 / BRC20_Controller / Ownable")
+    # a refused bridge call must not mint or burn: the block-protocol validator refuses, before anything executes, every call
+    # that the database layer would only refuse after the EVM state change was applied (existing hash / number, wrong index)
+    ER.clause_validator_rows(R, F)
     return R
